@@ -481,6 +481,8 @@ pub const fn inv_mod2k_vartime(&self, k: u32) -> (ret__: ConstCtOption<Self>)
         let mut i = 0;
         // The inverse exists either if `k` is 0 or if `self` is odd.
         let is_some = ConstChoice::from_u32_nonzero(k).not().or(self.is_odd());
+        // Only the low `BITS` bits of the inverse are representable (same result as `inv_mod2k`).
+        let k = if k > Self::BITS() { Self::BITS() } else { k };
 //@+
     let ghost a = self.v(); let ghost w = bp(LIMBS as nat);
     proof {
